@@ -170,7 +170,7 @@ CHECKS = {
              "implementation: data of every frame vs single-frame injection at shifted times, time axes bit for bit before/after (1, 2, 5 "
              "injections, integer and unix start times, realistic dt), a callback raising on the k-th frame for every k, slices and label "
              "subsets, slew times and consolidation.",
-        design="3/C16", technique="Coq induction over frames (law-free, Leibniz) + PrimFloat refutation + bitwise time-axis correspondence"),
+        design="3/C16", technique="source-regenerated scalar kernels (tools/py2v.py) proved equal to the model + Coq induction over frames (law-free, Leibniz) + PrimFloat refutation + bitwise time-axis correspondence"),
     "C19": dict(
         text="Theorems: the index-based generator yields exactly floor((nchans-fchans)/s)+1 pieces, every piece inside the file and one more "
              "would not fit; the frequencies handed to the reader for piece i round to channels [i*s, i*s+fchans) for every header frequency "
